@@ -74,6 +74,9 @@ def gen(rng, tier, i):
             for _ in range(total + 2): L.append('t 0 deq')
         L.append('t 0 qstats')
     elif cls == 'worker':
+        if rng.random() < 0.35:
+            # the worker procedure returns on its own (before or after anybody asks it to stop)
+            opts['worker_exit_after'] = rng.choice((0, 1, 3, 40))
         L.append('t 0 wcreate')
         r = rng.random()
         if r < 0.4: pass
@@ -212,6 +215,8 @@ def check(plan, res):
                 ms = int(kv['ms']); took = int(kv['took_ns'])
                 if ms >= 0 and took > ms * 1000000 + 50000000:
                     v.append(Violation(PROP, 'join-timeout', 'join(%d ms) returned after %d ms' % (ms, took // 1000000), PROP + '/worker/join-overran-timeout'))
+                if kv['ret'] != '1' and exit_seen and ms != 0:
+                    v.append(Violation(PROP, 'join', 'the worker procedure had finished before join(%d ms) was called, but the join failed after %d ms' % (ms, took // 1000000), PROP + '/worker/finished-worker-not-joined'))
                 if kv['ret'] == '1':
                     joined_ok_at = y
                     if not exit_seen: v.append(Violation(PROP, 'join', 'join reported success before the worker procedure finished', PROP + '/worker/joined-before-exit'))
